@@ -216,6 +216,39 @@ void modular(vf::Ctx& c)
             vf::eval("month_arith");
             if (dm < 0 || static_cast<long>(m) - 1 + dm >= 12) { vf::nontrivial_count(); }
         }
+        // deltas over the whole range of months::rep: [time.cal.month.nonmembers] computes in long long, so every delta is
+        // defined (year_month + months is only defined while the year stays in range and is covered by its own sweep)
+        {
+            std::vector<long> big;
+            for (long i = 0; i < 14; ++i) {
+                for (long base : {2147483647L, 2000000000L, 1L << 24, 12L * 32767, 1L << 16}) {
+                    big.push_back(base - i);
+                    big.push_back(-(base - i));
+                }
+            }
+            vf::Rng r{c.seed * 31 + m};
+            for (int i = 0; i < 60; ++i) { big.push_back(static_cast<long>(r.below(0xFFFFFFFFULL)) - 2147483647L); }
+            for (long dm : big) {
+                Case k{"month+months", static_cast<long>(m), dm, 0, 0};
+                vf::Flight<Case> fl("month_arith", k);
+                if (!want(k)) { continue; }
+                auto const d = static_cast<int>(dm);
+                auto exp     = static_cast<unsigned>(floor_mod(static_cast<long>(m) - 1 + dm, 12) + 1);
+                auto sexp    = unsigned{sc::month{m} + sc::months{d}};
+                auto r1      = unsigned{ec::month{m} + ec::months{d}};
+                auto r2      = unsigned{ec::months{d} + ec::month{m}};
+                auto r3      = unsigned{ec::month{m} - ec::months{-d}};
+                auto mm      = ec::month{m};
+                mm += ec::months{d};
+                auto mn = ec::month{m};
+                mn -= ec::months{-d};
+                CHECK("month_arith", k, exp == sexp && r1 == exp && r2 == exp && r3 == exp && unsigned{mm} == exp && unsigned{mn} == exp, "month{%u} + months{%d}: etl %u/%u/%u/%u/%u expected %u", m, d, r1, r2, r3,
+                    unsigned{mm}, unsigned{mn}, exp);
+                vf::eval("month_arith");
+                vf::nontrivial_count();
+                vf::label("month arithmetic: |delta| > 2^30", dm > (1L << 30) || dm < -(1L << 30));
+            }
+        }
         for (unsigned m2 = 1; m2 <= 12; ++m2) {
             Case k{"month-month", static_cast<long>(m), static_cast<long>(m2), 0, 0};
             vf::Flight<Case> fl("month_arith", k);
